@@ -649,8 +649,13 @@ def _gen_raw(rng, stream):
                 return None
             sz[v] = sum(pool_sizes[k] for k in pick)
             pool = {}
+            cands = [g for g in range(NGLOB) if g != v]
             for k in sorted(set(pick)):
-                ax = [(v, pool_sizes[k])] + others
+                oth = others
+                if stream == "clean" and rng.random() < 0.35:
+                    # ragged parts: this part has its own other axes (Cat broadcasts the smaller parts)
+                    oth = [(g, sz[g]) for g in rng.sample(cands, rng.choice([0, 1, 1, 2]))]
+                ax = [(v, pool_sizes[k])] + oth
                 rng.shuffle(ax)
                 pool[k] = new_leaf(force_axes=ax)
             cat_node = ("cat", v, [pool[k] for k in pick])
@@ -763,7 +768,7 @@ def subterms(e):
 FIXED_IN_REPO = {                      # region -> /repo fix: commit (funsor/adjoint.py)
     "cat-part-name": "e4f2934", "add-broadcast": "1a4c2b1", "subs-free-var": "2224a5a",
     "tape-key-collision": "d732c46", "binder-free-clash": "974fa44 (declines)",
-    "opt-rebinding": "2ff5c06 (declines)",
+    "opt-rebinding": "2ff5c06 (declines)", "cat-ragged": "a13826d",
 }
 FOLDED = set(FIXED_IN_REPO) | set(filter(None, os.environ.get("C11_FOLD", "").split(",")))
 
@@ -1033,7 +1038,7 @@ def check_case(ctx, case, use_driver=True, gate=True, label="clean"):
     sz2 = case2["sz"]
     # regions the tree-shaped Lean model is indifferent to (they concern the tape's keys / names)
     lean_good = not (violated(case2, raw=True) - {"opt-rebinding", "cat-part-name", "tape-key-collision",
-                                                   "add-broadcast", "subs-free-var", "shared-binder"})
+                                                   "add-broadcast", "subs-free-var", "shared-binder", "cat-ragged"})
     # 3. the Lean model and spec on the same term
     model = None
     if use_driver:
@@ -1228,10 +1233,6 @@ FINDINGS = {
     "plate-zero": ("KF-adjoint-plate-zero",
                    "adjoint_reduce plate branch: adjoint of a product-reduced plate is 0 instead of the product of "
                    "the other entries where the entry itself is 0 (safediv turns 0/0 into 0)"),
-    "cat-ragged": ("KF-adjoint-cat-ragged-parts",
-                   "adjoint_cat hands every part (a slice of) out_adj unchanged; a part that lacks an input of another "
-                   "part is broadcast over it by Cat, and that input's multiplicity is lost: Cat('d',(x(d), z(d,b))) "
-                   ".reduce(add): adjoint of x is 1, the derivative is |b|"),
     "scatter-number-shortcut": ("KF-adjoint-scatter-number-shortcut",
                                 "tensor.eager_scatter_number returns the source for any injective all-Variable substitution, "
                                 "also when the renamed-to variable is not in reduced_vars (it survives as an axis of the "
@@ -1283,22 +1284,6 @@ def dedicated(ctx, stream, n):
     for _ in range(n):
         if stream == "tape-key-collision":
             cases.append(gen_collision(ctx.rng))
-            continue
-        if stream == "cat-ragged":
-            v_, b_ = ctx.rng.sample(range(NGLOB), 2)
-            n1, n2, nb = ctx.rng.choice([1, 2]), ctx.rng.choice([1, 2]), ctx.rng.choice([2, 3])
-            sz_ = {v: 1 for v in range(NGLOB)}
-            sz_[v_] = n1 + n2
-            sz_[b_] = nb
-            lv = {0: dict(axes=[(v_, n1)], data=gen_data(ctx.rng, (n1,))),
-                  1: dict(axes=[(v_, n2), (b_, nb)], data=gen_data(ctx.rng, (n2, nb))),
-                  2: dict(axes=[(v_, n1 + n2)], data=gen_data(ctx.rng, (n1 + n2,)))}
-            parts = ctx.rng.choice([[0, 1], [1, 0]])
-            body = ("cat", v_, parts) if ctx.rng.random() < 0.5 else ("mul", ("cat", v_, parts), ("acc", 2, []))
-            if body[0] == "cat":
-                del lv[2]
-            cases.append(dict(sz=sz_, leaves=lv, expr=("sum", sorted([v_, b_]), body),
-                              sr=ctx.rng.choice(["add-mul", "logaddexp-add"]), opt=None))
             continue
         if stream == "scatter-number-shortcut":
             n_ = ctx.rng.choice([2, 3])
@@ -1423,6 +1408,21 @@ def aliasing_cases(rng):
                 out.append(mk(("sum", [t], dgi), {0: [(4, dn), (t, dn)]}, {t: dn}))
                 dgs = ("acc", 0, [(4, ("var", t)), (5, ("aff", t, 0, 1))])           # renaming + full slice, same variable
                 out.append(mk(("sum", [t], dgs), dax, {t: dn}))
+            # ragged Cat parts: x(t) next to z(t,o) — bare, multiplied, repeated, with a third axis
+            for parts, axes in (([0, 1], {0: [(t, n)], 1: [(t, k), (o, m)]}),
+                                ([1, 0], {0: [(t, n)], 1: [(o, m), (t, k)]}),
+                                ([0, 1, 0], {0: [(t, n)], 1: [(t, k), (o, m)]}),
+                                ([0, 1], {0: [(t, n), (3, 2)], 1: [(t, k), (o, m)]})):
+                tot = sum(dict(axes[l])[t] for l in parts)
+                if tot > 9:
+                    continue
+                szr = {t: tot, o: m, 3: 2}
+                cat = ("cat", t, parts)
+                fvs = sorted({nm for l in parts for nm, _ in axes[l]})
+                out.append(mk(("sum", fvs, cat), dict(axes), szr))
+                out.append(mk(("sum", [t], cat), dict(axes), szr))
+                out.append(mk(("sum", fvs, ("mul", cat, ("acc", 2, []))), dict(axes, **{2: [(t, tot)]}) if False else
+                              {**axes, 2: [(t, tot)]}, szr))
             r_ = ("acc", 0, [(4, ("var", t))])
             out.append(mk(("sum", [t], ("mul", ("mul", r_, r_), ("acc", 1, []))), {0: [(4, n)], 1: [(t, n)]}, {t: n}))
             out.append(mk(("sum", [t], ("add", r_, r_)), {0: [(4, n)]}, {t: n}))
@@ -1626,7 +1626,7 @@ def correspond(ctx):
                 "stream satisfies the hypotheses `Good` of adjoint_sound; two dedicated streams (the open findings "
                 "plate-zero, scatter-number-shortcut) violate exactly one.  The regions of the six findings fixed in "
                 "/repo (⊕ of differently-shaped operands, extra root inputs at a Subs node, Cat with part_name != "
-                "name, the same renaming under two binders, bound names clashing with root inputs / rebinding under "
+                "name, Cat parts with different inputs, the same renaming under two binders, bound names clashing with root inputs / rebinding under "
                 "the optimizer — the last two now decline) are part of the clean stream. "
                 "A nested-binder block reuses one variable name at 2-3 nesting levels (plain and through the optimizer). "
                 "Cat parts are drawn WITH repetition (the same Tensor twice, adjacent or not, sizes 1-3) and may also "
